@@ -237,11 +237,12 @@ _reg("C12", c12.run,
                 "from_dict / read return mirrors its children; hence (history_mirror) after ANY sequence of to_dict+from_dict, "
                 "write+read and infer_types the graph-level dictionaries are the children's current ones.",
      level_note="Lean kernel; hand-written model of __post_init__/infer_types; histories with round trips rely on the oracle.")
-_reg("C13", c13.run, translator=("T1", "T2"), module="NirVerif.Properties.C13Nested",
+_reg("C13", c13.run, translator=("T1", "T2", "T11"), module="NirVerif.Properties.C13Generated",
      theorems=["NirVerif.C13.keys", "NirVerif.C13.no_types", "NirVerif.C13.roundtrip", "NirVerif.C13.roundtrip_exact",
                "NirVerif.C13.roundtrip_exact_conv2d", "NirVerif.C13.roundtrip_exact_input", "NirVerif.C13.roundtrip_exact_output",
                "NirVerif.C13.roundtrip_exact_flatten", "NirVerif.C13.graph_roundtrip_exact",
-               "NirVerif.Lemmas.graph_dict_exactN", "NirVerif.C13.nested_roundtrip_exact", "NirVerif.C13.nested_graph"],
+               "NirVerif.Lemmas.graph_dict_exactN", "NirVerif.C13.nested_roundtrip_exact", "NirVerif.C13.nested_graph",
+               "NirVerif.C13.overrides_generated", "NirVerif.C13.toDict_override_generated"],
      rule="Graphs of the C01 domain plus consistent graphs with erased (None) annotations: to_dict output checked for "
           "plain values and documented keys, for shared ids and shared memory with the graph, for strict (type-identical) "
           "equivalence of from_dict(to_dict(g)), and by mutating the dictionary and re-snapshotting the graph; the model's "
